@@ -880,6 +880,9 @@ func (lc *leaderController) write(ctx context.Context, requestSupplier func(offs
 	}
 
 	defer lc.Unlock()
+	if vhook.Enabled {
+		vhook.At("leader.write.before-append", walLog, term, newOffset)
+	}
 	walLog.AppendAndSync(&proto.LogEntry{
 		Term:      term,
 		Offset:    newOffset,
